@@ -74,8 +74,8 @@ type c08Env struct {
 }
 
 var (
-	c08envs = map[[2]int]*c08Env{}
-	c08fd   protoreflect.FileDescriptor
+	c08envs   = map[[2]int]*c08Env{}
+	c08fd     protoreflect.FileDescriptor
 	c08jsonOv int
 )
 
@@ -458,10 +458,10 @@ func c08Frame(flag byte, prefix uint32, payload []byte) []byte {
 
 // the parts of a response every path reports
 type c08Resp struct {
-	ok      bool  // the call succeeded as the client sees it
-	sizeErr bool  // the client-visible code is ResourceExhausted
-	frames  [][]byte
-	rest    int
+	ok       bool // the call succeeded as the client sees it
+	sizeErr  bool // the client-visible code is ResourceExhausted
+	frames   [][]byte
+	rest     int
 	panicked bool
 }
 
